@@ -25,7 +25,7 @@ def uloc(p: Project, node):
     return f"{p.module(UTILS).relpath}:{getattr(node, 'lineno', '?')}"
 
 
-def escape_info(p: Project, modname: str, call: ast.Call) -> Optional[Tuple[str, Set[str]]]:
+def escape_info(p: Project, modname: str, call: ast.Call, _depth: int = 0) -> Optional[Tuple[str, Set[str]]]:
     """(name, set of entity strings the escaper can produce) if `call` is a known escaping function"""
     d = dotted(call.func) or ""
     last = d.split(".")[-1]
@@ -54,6 +54,29 @@ def escape_info(p: Project, modname: str, call: ast.Call) -> Optional[Tuple[str,
         if quote:
             ents |= {"&quot;", "&#x27;"}
         return "html.escape", ents
+    # a repo helper all of whose returns are an escaping call applied to its parameter
+    if isinstance(call.func, ast.Name) and _depth < 2:
+        from .source import Func as _Func
+
+        t_ = p.resolve(modname, call.func.id)
+        if isinstance(t_, _Func):
+            hp = set(params_of(t_.node))
+            rets = [r_.value for r_ in own_nodes(t_.node) if isinstance(r_, ast.Return) and r_.value is not None]
+            infos = []
+            for rv in rets:
+                found = None
+                for c2 in ast.walk(rv):
+                    if isinstance(c2, ast.Call):
+                        i2 = escape_info(p, t_.module, c2, _depth + 1)
+                        if i2 and any(isinstance(x, ast.Name) and x.id in hp for a in c2.args for x in ast.walk(a)):
+                            found = i2
+                            break
+                if found is None:
+                    return None
+                infos.append(found)
+            if infos:
+                ents = set().union(*[i[1] for i in infos])
+                return f"{call.func.id} -> {infos[0][0]}", ents
     return None
 
 
@@ -108,6 +131,18 @@ def l_r2_escaping(p: Project, rep: Report, rule="L-R2", reader_decodable=False):
         rep.rule(rule, "every entity the writer's escaping function can emit is one the reader decodes (&amp; &lt; &gt; &nbsp; &apos; &quot;): otherwise a value such as o'brien comes back as o&#x27;brien")
     fn = p.get_function(UTILS, "tostring_unclosed_elements").node
     reads = [n for n in own_nodes(fn) if isinstance(n, ast.Attribute) and n.attr == "text" and isinstance(n.ctx, ast.Load)]
+    if not reads:
+        # a thin wrapper around a (recursive) private helper that does the writing
+        from .source import Func as _Func
+
+        for c in own_nodes(fn):
+            if isinstance(c, ast.Call) and isinstance(c.func, ast.Name):
+                t_ = p.resolve(UTILS, c.func.id)
+                if isinstance(t_, _Func):
+                    r2 = [n for n in own_nodes(t_.node) if isinstance(n, ast.Attribute) and n.attr == "text" and isinstance(n.ctx, ast.Load)]
+                    if r2:
+                        fn, reads = t_.node, r2
+                        break
     # reads through a local alias: x = elem.text ... use(x)
     defs = local_defs(fn)
     alias_reads = []
@@ -281,6 +316,25 @@ def w_r2_leaf_predicate(p: Project, rep: Report):
     wfn0 = p.get_function(UTILS, "tostring_unclosed_elements").node
     wfn = flat(p, UTILS, wfn0)
     elem = params_of(wfn0)[0]
+
+    def writes_markup(f):
+        return any(isinstance(c, ast.Constant) and isinstance(c.value, (str, bytes)) and ((b"<" in c.value) if isinstance(c.value, bytes) else ("<" in c.value)) for c in ast.walk(f))
+
+    if not writes_markup(wfn):
+        # a thin wrapper: the markup is produced by a (recursive) private helper that is handed the element
+        from .source import Func as _Func
+
+        for c in own_nodes(wfn):
+            if isinstance(c, ast.Call) and isinstance(c.func, ast.Name):
+                t_ = p.resolve(UTILS, c.func.id)
+                if isinstance(t_, _Func) and writes_markup(t_.node):
+                    pos_ = [i for i, a in enumerate(c.args) if text(a) == elem]
+                    if pos_:
+                        wfn = flat(p, UTILS, t_.node, keep=(t_.node.name,))
+                        elem = params_of(t_.node)[pos_[0]]
+                        break
+        else:
+            raise AnalysisError("W-R2: the end-tag-less writer produces no markup itself and no helper that does was found")
     wx = Expander(wfn)
     pths = PT.enumerate_paths(wfn, expander=wx)
     cfg = pths.cfg
